@@ -329,7 +329,10 @@ def b_any(eng, st, args, kwargs, node):
     r = _static_quantifier(eng, st, args[0], True) if args else None
     if r is not None:
         return r
-    raise Unsupported("any()")
+    # not expandable: the weakest contract (what an unknown callee gets)
+    from .calls import opaque_call
+
+    return opaque_call(eng, st, "global:any", args, kwargs)
 
 
 def b_all(eng, st, args, kwargs, node):
